@@ -244,6 +244,27 @@ def gen_plan(rng, tier, idx):
         else:
             ev = rng.choice(["gc", "poison", "clear_cache", "drop"])
             ops.append({"op": ev, "target": rng.choice(["backend:numba", "backend:scipy", f, fs["grid"], rng.choice(sorted(eqs))])})
+    # motif: one rank-agnostic equation object meets two collections on the same grid that have the same total number of
+    # components but members of other ranks (e.g. [scalar, vector] and then [vector, scalar])
+    two = [e for e, es in eqs.items() if es.get("any_rank") and len(es["rhs"]) == 2]
+    if two and rng.random() < 0.7:
+        gid = rng.choice(sorted(grids))
+        if grids[gid]["cls"] != "SphericalSymGrid":
+            n0 = len(fields)
+            fields[f"f{n0}"] = {"grid": gid, "rank": 0, "dtype": "float", "seed": rng.randrange(1 << 30)}
+            fields[f"f{n0 + 1}"] = {"grid": gid, "rank": 1, "dtype": "float", "seed": rng.randrange(1 << 30)}
+            fields[f"f{n0 + 2}"] = {"grid": gid, "rank": 0, "dtype": "float", "seed": rng.randrange(1 << 30)}
+            fields[f"f{n0 + 3}"] = {"grid": gid, "rank": 1, "dtype": "float", "seed": rng.randrange(1 << 30)}
+            eid = rng.choice(two)
+            via = lambda: rng.choice(["evolution_rate", "make_pde_rhs"])  # noqa: E731
+            motif = [{"op": "collect", "cid": "c3", "fids": [f"f{n0}", f"f{n0 + 1}"], "copy_fields": False},
+                     {"op": "rate", "eq": eid, "state": "c3", "t": 0.0, "via": via(), "backend": rng.choice(["numpy", "numba"])},
+                     {"op": "collect", "cid": "c4", "fids": [f"f{n0 + 3}", f"f{n0 + 2}"], "copy_fields": False},
+                     {"op": "rate", "eq": eid, "state": "c4", "t": 0.0, "via": via(), "backend": rng.choice(["numpy", "numba"])}]
+            if rng.random() < 0.5:
+                motif = motif[2:] + motif[:2]
+            pos = rng.randint(0, len(ops))
+            ops[pos:pos] = motif
     return {"engine": "history-sim", "header": header, "ops": ops}
 
 
